@@ -314,14 +314,14 @@ PROPS['C14'] = dict(
 )
 PROPS['C15'] = dict(
     lean_targets=['AnonModel.Props.C15', 'AnonModel.Props.C15Req', 'AnonModel.Props.C15Bn', 'AnonModel.Props.C15B64', 'AnonModel.Props.C15Pv', 'AnonModel.Props.C15Mp', 'AnonModel.Props.GenConstsC15'],
-    required_theorems=['C15_base_header_unchanged', 'C15_codec_sources_unchanged', 'C15_mp_decode_encode', 'C15_mp_prefix_free', 'C15_mp_injective', 'C15_mp_sequence', 'C15_mp_trailing_ignored', 'C15_mp_reader_accepts_wide_forms', 'C15_mp_struct_members', 'C15_pv_chain', 'C15_pv_chain_injective', 'C15_pv_untag_shape', 'C15_pv_de_ser', 'C15_pv_ser_de', 'C15_pv_extra_refused', 'C15_pv_kind_mismatch_refused', 'C15_b64_decode_encode', 'C15_b64_encode_decode', 'C15_b64_decode_injective', 'C15_b64_rejects_foreign_symbol', 'C15_b64_length', 'C15_envelope_decode_encode', 'C15_envelope_encode_decode', 'C15_envelope_header_required', 'C15_bn_binary_hop', 'C15_bn_binary_hop_partial', 'C15_bn_binary_full_claim_refuted', 'C15_req_de_ser', 'C15_req_ser_de', 'C15_req_ser_de_any', 'C15_req_empty_interval_kept', 'C15_req_restrictions_kept', 'C15_req_missing_vs_null', 'C15_req_ver',
+    required_theorems=['C15_base_header_unchanged', 'C15_codec_sources_unchanged', 'C15_mp_decode_encode', 'C15_mp_prefix_free', 'C15_mp_injective', 'C15_mp_sequence', 'C15_mp_trailing_ignored', 'C15_mp_reader_accepts_wide_forms', 'C15_mp_struct_members', 'C15_pv_typed', 'C15_pv_typed_text', 'C15_pv_chain', 'C15_pv_chain_injective', 'C15_pv_untag_shape', 'C15_pv_de_ser', 'C15_pv_ser_de', 'C15_pv_extra_refused', 'C15_pv_kind_mismatch_refused', 'C15_b64_decode_encode', 'C15_b64_encode_decode', 'C15_b64_decode_injective', 'C15_b64_rejects_foreign_symbol', 'C15_b64_length', 'C15_envelope_decode_encode', 'C15_envelope_encode_decode', 'C15_envelope_header_required', 'C15_bn_binary_hop', 'C15_bn_binary_hop_partial', 'C15_bn_binary_full_claim_refuted', 'C15_req_de_ser', 'C15_req_ser_de', 'C15_req_ser_de_any', 'C15_req_empty_interval_kept', 'C15_req_restrictions_kept', 'C15_req_missing_vs_null', 'C15_req_ver',
                        'C15_nonce_ser_de', 'C15_nonce_string_kept', 'C15_nonce_rejects', 'C15_revlist_de_ser', 'C15_revlist_ser_de', 'C15_ver_roundtrip',
                        'C15_missing_ver_is_v1', 'C15_attrval_de_ser', 'C15_attrval_ser_de', 'C15_attrval_rejects'],
     families=[dict(name='c15')], default_dir='exact', spec_is_model=['c15'],
     fam_theorem={'c15': 'C15_nonce_* / C15_revlist_* / C15_ver_* / C15_attrval_* / C15_req_* (hand-written codecs = model; reqDe / reqSer is the whole presentation-request codec)',
                  'c15.mp': 'C15_mp_decode_encode (what the msgpack writer writes is read back, any nesting, trailing bytes ignored), C15_mp_prefix_free / C15_mp_injective, C15_pv_chain (text -> base64url -> msgpack -> tagged sequence returns the kind and payload written)',
                  'c15.b64': 'C15_b64_decode_encode / C15_b64_encode_decode (base64url without padding: lossless, one accepted text per byte string), C15_envelope_* (multibase header), C15_pv_de_ser / C15_pv_ser_de (tagged proof value: only the written form is read)'},
-    rule="the msgpack layer (Model/Msgpack = rmp / rmp-serde as driven by utils::msg_pack through the guarded hooks msgpack_encode / msgpack_decode and a self-describing value type; ops mp_encode, mp_decode, mp_struct, pv_read): derived structures (a probe structure with text, unsigned / signed numbers, Option members kept and skipped, a list, a three-shape enum, a newtype, a tuple; 40 quick / 200 thorough instances) written by the library and as `structMV` of their member list by the model, every member looked up again after the trip; ~500 (quick) / ~4,100 (thorough) trees written by the library and by the model (34 integer boundaries of every format, string / byte-string / sequence / map lengths 0 1 2 15 16 17 31 32 33 255 256 257 65535 65536, atoms, nesting to depth 60, random trees of depth <= 4 with text keys and now and then other keys) compared byte for byte; ~7,500 (quick) byte strings read by the library's reader and by the model compared as trees: everything written, every value in every longer form the reader accepts (integers in all wider formats, lengths in wider headers), truncations, trailing bytes, one byte replaced (mostly markers and lengths), each of the 256 leading bytes alone / followed by 7 fills / inside a sequence (floats, extension types and 0xc1 refused by both), invalid UTF-8 behind string headers (handed over as bytes), 2,000 random short strings; the bytes of every real proof value of the cast and of honest presentations: read by model and library as the same tree, and that tree written back is the same bytes (real payloads lie in the modelled fragment, in the writer's form: oracle on the real code and op mp_encode); whole proof-value texts (op pv_read: header, base64url, msgpack, tagged sequence): real ones and the ~440 assembled sequences of the codec_pv stream, exact whenever the library accepts (kind and payload tree) or refuses for a reason visible below the typed layer; the base64url layer of every proof value (ops b64_encode / b64_decode through the guarded hooks, Model/Base64): byte strings of every length 0..48 (3 / 12 each), constant runs, 30 / 300 longer ones; texts: every string of length <= 2 over the 64 symbols plus 18 intruders (= + / space . newline tab , : ; @ [ ` { NUL DEL and two non-ASCII characters), the last symbol of valid texts replaced by each of the 64 symbols (unused low bits), padding appended, an intruder inserted, one symbol more / less, proof values of real credentials: ~14,000 (quick) texts compared exactly with the model, plus the two oracles on the real code (read back what was written; an accepted text is the text written for its bytes); the tagged proof value (op codec_pv, Model/WirePv: the hand-written visitor of DataIntegrityProofValue): ~440 (quick) msgpack sequences assembled from the real payloads of the three kinds, 12 tags (-2..5, 127, 128, i32 bounds) in narrow and wide integer formats, 9 other values (nil, string, true, 64-bit integers, float, empty map / array, u32 beyond i32), with extra elements, wrong order, missing members and a mostly-valid random stream: the kind accepted; the multibase layer (op pv_decode): real proof objects with the proofValue text respelled so that the bytes stay the same whenever the text is acceptable (header missing / other, padding or white space appended, every setting of the unused low bits of the last symbol); revealed encodings of five value pairs (negative, zero, boundaries, byte-boundary magnitudes) read from a W3C presentation before and after a hop against the model of the binary big-number codec (op bn_hop: the magnitude survives, the sign does not — F22; legacy control verifies); the whole PresentationRequest codec (op codec_req: de then ser, as documents) on 1,200 (quick) / 20,000 (thorough) documents assembled from member pools holding every boundary form (intervals {} / one bound / both / null / array form / wrong types / out of u64; restrictions in every operator and degenerate form incl. legacy lists with null tags; names / p_type / p_value / nonce / ver forms; missing, null and unknown members; array-form structs), about half of them valid; typed-equality hops (PresentationRequest, W3CCredential, W3CPresentation: PartialEq; status lists, offers, requests, metadata, registry definitions, revocation states: printed form) and status lists with timestamps absent / 0 / 1 / u64::MAX. Hand-written codecs compared exactly with the model on ~2000 JSON inputs each way (Nonce from strings with leading zeros / numbers / byte arrays incl. truncation and trailing junk / wrong types; revocation list bits incl. other numbers, floats, booleans; request version present / absent / unknown / mistyped; untagged attribute value over the i32 boundaries, floats, big integers, null, arrays). Hop stream (oracle, all 17 object types): every complete flow (legacy / W3C x plain / revocable) is run twice from the same PRNG state, once directly and once with a serialise->deserialise hop at every hand-over point (schema, definition and its private and correctness parts, offer, request and metadata, credential before and after processing, registry definition and private part, status list, revocation state, nonce, presentation request, presentation): outcomes must agree; ser(de(ser x)) = ser x as canonical documents (JSON values, msgpack envelopes decoded); every cast object and 24 random honest presentations hopped and re-verified",
+    rule="the msgpack layer (Model/Msgpack = rmp / rmp-serde as driven by utils::msg_pack through the guarded hooks msgpack_encode / msgpack_decode and a self-describing value type; ops mp_encode, mp_decode, mp_struct, pv_read, pv_typed): every assembled tagged sequence of the codec_pv stream also as a text through all four layers of the model (pv_typed: elements classified from the bytes — integer within i32, map with the required members of payload structure k, anything else — then the visitor model), compared exactly with the kind the library accepts or its refusal, every class; derived structures (a probe structure with text, unsigned / signed numbers, Option members kept and skipped, a list, a three-shape enum, a newtype, a tuple; 40 quick / 200 thorough instances) written by the library and as `structMV` of their member list by the model, every member looked up again after the trip; ~500 (quick) / ~4,100 (thorough) trees written by the library and by the model (34 integer boundaries of every format, string / byte-string / sequence / map lengths 0 1 2 15 16 17 31 32 33 255 256 257 65535 65536, atoms, nesting to depth 60, random trees of depth <= 4 with text keys and now and then other keys) compared byte for byte; ~7,500 (quick) byte strings read by the library's reader and by the model compared as trees: everything written, every value in every longer form the reader accepts (integers in all wider formats, lengths in wider headers), truncations, trailing bytes, one byte replaced (mostly markers and lengths), each of the 256 leading bytes alone / followed by 7 fills / inside a sequence (floats, extension types and 0xc1 refused by both), invalid UTF-8 behind string headers (handed over as bytes), 2,000 random short strings; the bytes of every real proof value of the cast and of honest presentations: read by model and library as the same tree, and that tree written back is the same bytes (real payloads lie in the modelled fragment, in the writer's form: oracle on the real code and op mp_encode); whole proof-value texts (op pv_read: header, base64url, msgpack, tagged sequence): real ones and the ~440 assembled sequences of the codec_pv stream, exact whenever the library accepts (kind and payload tree) or refuses for a reason visible below the typed layer; the base64url layer of every proof value (ops b64_encode / b64_decode through the guarded hooks, Model/Base64): byte strings of every length 0..48 (3 / 12 each), constant runs, 30 / 300 longer ones; texts: every string of length <= 2 over the 64 symbols plus 18 intruders (= + / space . newline tab , : ; @ [ ` { NUL DEL and two non-ASCII characters), the last symbol of valid texts replaced by each of the 64 symbols (unused low bits), padding appended, an intruder inserted, one symbol more / less, proof values of real credentials: ~14,000 (quick) texts compared exactly with the model, plus the two oracles on the real code (read back what was written; an accepted text is the text written for its bytes); the tagged proof value (op codec_pv, Model/WirePv: the hand-written visitor of DataIntegrityProofValue): ~440 (quick) msgpack sequences assembled from the real payloads of the three kinds, 12 tags (-2..5, 127, 128, i32 bounds) in narrow and wide integer formats, 9 other values (nil, string, true, 64-bit integers, float, empty map / array, u32 beyond i32), with extra elements, wrong order, missing members and a mostly-valid random stream: the kind accepted; the multibase layer (op pv_decode): real proof objects with the proofValue text respelled so that the bytes stay the same whenever the text is acceptable (header missing / other, padding or white space appended, every setting of the unused low bits of the last symbol); revealed encodings of five value pairs (negative, zero, boundaries, byte-boundary magnitudes) read from a W3C presentation before and after a hop against the model of the binary big-number codec (op bn_hop: the magnitude survives, the sign does not — F22; legacy control verifies); the whole PresentationRequest codec (op codec_req: de then ser, as documents) on 1,200 (quick) / 20,000 (thorough) documents assembled from member pools holding every boundary form (intervals {} / one bound / both / null / array form / wrong types / out of u64; restrictions in every operator and degenerate form incl. legacy lists with null tags; names / p_type / p_value / nonce / ver forms; missing, null and unknown members; array-form structs), about half of them valid; typed-equality hops (PresentationRequest, W3CCredential, W3CPresentation: PartialEq; status lists, offers, requests, metadata, registry definitions, revocation states: printed form) and status lists with timestamps absent / 0 / 1 / u64::MAX. Hand-written codecs compared exactly with the model on ~2000 JSON inputs each way (Nonce from strings with leading zeros / numbers / byte arrays incl. truncation and trailing junk / wrong types; revocation list bits incl. other numbers, floats, booleans; request version present / absent / unknown / mistyped; untagged attribute value over the i32 boundaries, floats, big integers, null, arrays). Hop stream (oracle, all 17 object types): every complete flow (legacy / W3C x plain / revocable) is run twice from the same PRNG state, once directly and once with a serialise->deserialise hop at every hand-over point (schema, definition and its private and correctness parts, offer, request and metadata, credential before and after processing, registry definition and private part, status list, revocation state, nonce, presentation request, presentation): outcomes must agree; ser(de(ser x)) = ser x as canonical documents (JSON values, msgpack envelopes decoded); every cast object and 24 random honest presentations hopped and re-verified",
     trusted_base=TRUSTED_COMMON + ["serde derive, serde_json and the CL crate's Serialize / Deserialize impls (which members a structure has, a big number as a list of bytes) are external code outside the model (the property is partial in that sense): exercised by the hop stream only; the msgpack byte format of rmp / rmp-serde is modelled (Model/Msgpack: nil, booleans, integers, strings, byte strings, sequences, maps; floats and extension types are outside the fragment and refused by the harness's value type too; the reader's nesting limit of 1024 is not modelled) and compared with the library's encode / decode through the guarded hooks msgpack_encode / msgpack_decode; the base64 crate's URL_SAFE_NO_PAD engine is modelled (Model/Base64) and compared with it through the guarded hooks base64_encode / base64_decode"],
     not_exhibited_by_model=["derive-generated and CL-crate codecs (which tree a structure is written as): hop stream (test) only"],
 )
